@@ -61,13 +61,18 @@ func parseRawData(rawData []byte) (units [][]byte, err error) {
 // byte, sequence length, or reserved bytes. Starts reading raw data based on
 // the reserved bytes in the first share.
 func extractRawData(shares []Share) (rawData []byte, err error) {
+	foundUnitStart := false
 	for i := 0; i < len(shares); i++ {
 		var raw []byte
-		if i == 0 {
+		if !foundUnitStart {
+			// No unit has started yet: the payload of this share up to the
+			// index in its reserved bytes (all of it if they are zero) belongs
+			// to a unit that began before the first share and is skipped.
 			raw, err = shares[i].RawDataUsingReserved()
 			if err != nil {
 				return nil, err
 			}
+			foundUnitStart = len(raw) > 0
 		} else {
 			raw = shares[i].RawData()
 		}
